@@ -1,18 +1,153 @@
-(* Correspondence entry point for C08, layer 1 (LimitIter, Handles).
-   requests: (0 bg en n)            limit(bg,en) over the items 0..n-1
-             (1 A B k)              A.union(B); array and contains(x) for x < k
-             (2 A B k)              A.intersection(B); array as a set and contains(x) for x < k
-             (3 A k)                from_iter(A); contains / position for x < k
-             (4 A)                  sort *)
-From Coq Require Import List ZArith Bool Arith.
+(* Correspondence entry point for C08.
+   Layer 1 (LimitIter, Handles):
+     (0 bg en n)            limit(bg,en) over the items 0..n-1
+     (1 A B k)              A.union(B); array and contains(x) for x < k
+     (2 A B k)              A.intersection(B); array as a set and contains(x) for x < k
+     (3 A k)                from_iter(A); contains / position for x < k
+     (4 A)                  sort
+   Layers 2/3 (queries over a store built by a history of Run/StoreRun.v):
+     (5 history ((query chain) ...))   SELECT: per entry the rows through STAMQL text, through the
+                                       Query/Constraint constructors and (chain = 1) through the
+                                       iterator API
+     (6 history add)                   ADD ANNOTATION ... { sub }: query_mut, then the direct calls
+     (7 history x sub nosub)           DELETE ANNOTATION ?x { sub } (nosub = 1: without sub-query)
+   query  = (name rt (cst ...) lim opt sub)   rt 0 ANNOTATION 1 DATA 2 KEY 3 RESOURCE 4 DATASET 5 TEXT
+            lim = () | (bg en)   sub = () | (query)
+   cst    = (0 tok) ID | (1 ref meta) ANNOTATION | (2 ref meta) RESOURCE | (3 ref meta) DATASET
+          | (4 set key meta) DATA set key | (5 set key op meta) DATA set key op value | (6 op) VALUE
+          | (7 v meta) DATA ?v | (8 v meta) KEY ?v | (9 v) TEXT ?v | (10 v kw) RELATION ?v KW
+          | (11 (cp ...) nocase) TEXT "..." | (12 cst ...) union
+   ref    = (0 tok) | (1 v);   op as in harness/src/c10.rs dop
+   add    = (id|-1 ((set key value) ...) target sub)
+   rows are lists of items (tag h1 h2 h3), flattened; without LIMIT they are compared sorted *)
+From Coq Require Import List ZArith NArith Bool Arith.
 Import ListNotations.
 From Stam Require Import Base.Sx Model.Limit Model.Handles Spec.HandlesSpec.
+From Stam Require Import Model.Offset Model.Store Model.DataValue Model.QuerySem Spec.QuerySpec Run.StoreRun.
 
 Definition nats_of (x : sx) : list nat := map sx_nat (sx_list x).
 
 Definition obs_h (h : handles) (canon : bool) (k : nat) : sx :=
   L [of_nats (if canon then sort (arr h) else arr h);
      L (map (fun x => of_bool (contains h x)) (seq 0 k))].
+
+(** decoding of queries *)
+
+Fixpoint dop_of_sx (x : sx) : dop :=
+  match x with
+  | A _ => OpAny
+  | L l =>
+      match l with
+      | A tag :: rest =>
+          let z := sx_Z (nth 0 rest (A 0)) in
+          match tag with
+          | 0%Z => OpNull | 1%Z => OpAny | 2%Z => OpTrue | 3%Z => OpFalse
+          | 4%Z => OpEquals (map sx_N rest)
+          | 5%Z => OpEqInt z | 6%Z => OpGt z | 7%Z => OpGe z | 8%Z => OpLt z | 9%Z => OpLe z
+          | 10%Z => OpEqFix z | 11%Z => OpGtFix z | 12%Z => OpGeFix z | 13%Z => OpLtFix z | 14%Z => OpLeFix z
+          | 15%Z => OpHas (map sx_N rest) | 16%Z => OpHasInt z | 17%Z => OpHasFix z
+          | 18%Z => OpNot (match rest with o :: _ => dop_of_sx o | [] => OpAny end)
+          | 19%Z => OpAnd (map dop_of_sx rest)
+          | _ => OpOr (map dop_of_sx rest)
+          end
+      | _ => OpAny
+      end
+  end.
+
+Definition vref_of_sx (x : sx) : vref :=
+  if Z.eqb (sx_Z (sx_nth 0 x)) 0 then RId (sx_nat (sx_nth 1 x)) else RVar (sx_nat (sx_nth 1 x)).
+
+Definition kw_of_nat (n : nat) : relkw :=
+  match n with
+  | 0 => KwEquals | 1 => KwEmbeds | 2 => KwEmbedded | 3 => KwOverlaps | 4 => KwPrecedes
+  | 5 => KwSucceeds | 6 => KwSameBegin | 7 => KwSameEnd | 8 => KwBefore | _ => KwAfter
+  end.
+
+Fixpoint cst_of_sx (x : sx) : cst :=
+  match x with
+  | A _ => CVal OpAny
+  | L l =>
+      match l with
+      | A tag :: rest =>
+          let n i := nth i rest (A 0) in
+          match tag with
+          | 0%Z => CId (sx_nat (n 0))
+          | 1%Z => CAnn (vref_of_sx (n 0)) (sx_bool (n 1))
+          | 2%Z => CRes (vref_of_sx (n 0)) (sx_bool (n 1))
+          | 3%Z => CSet (vref_of_sx (n 0)) (sx_bool (n 1))
+          | 4%Z => CKey (sx_nat (n 0)) (sx_nat (n 1)) (sx_bool (n 2))
+          | 5%Z => CKeyVal (sx_nat (n 0)) (sx_nat (n 1)) (dop_of_sx (n 2)) (sx_bool (n 3))
+          | 6%Z => CVal (dop_of_sx (n 0))
+          | 7%Z => CDataVar (sx_nat (n 0)) (sx_bool (n 1))
+          | 8%Z => CKeyVar (sx_nat (n 0)) (sx_bool (n 1))
+          | 9%Z => CTextVar (sx_nat (n 0))
+          | 10%Z => CRel (sx_nat (n 0)) (kw_of_nat (sx_nat (n 1)))
+          | 11%Z => CText (map sx_N (sx_list (n 0))) (sx_bool (n 1))
+          | _ => CUnion (map cst_of_sx rest)
+          end
+      | _ => CVal OpAny
+      end
+  end.
+
+Definition rt_of_nat (n : nat) : rtype :=
+  match n with 0 => TAnn | 1 => TData | 2 => TKey | 3 => TRes | 4 => TSet | _ => TText end.
+
+Definition lim_of_sx (x : sx) : option (Z * Z) :=
+  match sx_list x with
+  | [b; e] => Some (sx_Z b, sx_Z e)
+  | _ => None
+  end.
+
+(* sub-queries nest at most [fuel] deep *)
+Fixpoint query_of_sx (fuel : nat) (x : sx) : query :=
+  Q (sx_nat (sx_nth 0 x)) (rt_of_nat (sx_nat (sx_nth 1 x))) (map cst_of_sx (sx_list (sx_nth 2 x)))
+    (lim_of_sx (sx_nth 3 x)) (sx_bool (sx_nth 4 x))
+    (match fuel with
+     | 0 => None
+     | S f => match sx_list (sx_nth 5 x) with
+              | [sq] => Some (query_of_sx f sq)
+              | _ => None
+              end
+     end).
+
+(** printing of rows *)
+
+Definition item_nats (it : item) : list nat :=
+  match it with
+  | IAnn a => [0; a; 0; 0]
+  | IData d x => [1; d; x; 0]
+  | IKey d k => [2; d; k; 0]
+  | IRes r => [3; r; 0; 0]
+  | ISet d => [4; d; 0; 0]
+  | IText r b e => [5; r; b; e]
+  end.
+Definition row_nats (row : list item) : list nat := flat_map item_nats row.
+
+Fixpoint has_limit (q : query) : bool :=
+  match q with
+  | Q _ _ _ lim _ sub =>
+      match lim with Some _ => true | None => match sub with Some sq => has_limit sq | None => false end end
+  end.
+
+(* the order of the rows is part of the observation only when a LIMIT makes it matter *)
+Definition rows_sx (ordered : bool) (rows : list (list item)) : sx :=
+  let l := map row_nats rows in
+  L (map of_nats (if ordered then l else sort_leaves l)).
+
+Definition orows_sx (ordered : bool) (o : option (list (list item))) : sx :=
+  match o with Some rows => rows_sx ordered rows | None => L [A (-1)] end.
+
+Definition state_sx (s : store) (model : bool) : sx :=
+  L (map (fun t => sx_nth (if model then 0 else 1) t) (obs_state s)).
+
+Definition addq_of_sx (x : sx) : addq :=
+  mkadd (sx_onat (sx_nth 0 x))
+        (map (fun d => (sx_nat (sx_nth 0 d), sx_nat (sx_nth 1 d), value_of_sx (sx_nth 2 d))) (sx_list (sx_nth 1 x)))
+        (sx_nat (sx_nth 2 x))
+        (query_of_sx 3 (sx_nth 3 x)).
+
+Definition out_code (o : out) : sx :=
+  match o with OOk _ => A 1 | OErr => A 0 | OPanic => A (-1) end.
 
 Definition run_C08 (x : sx) : sx :=
   match sx_nat (sx_nth 0 x) with
@@ -41,7 +176,52 @@ Definition run_C08 (x : sx) : sx :=
       let k := sx_nat (sx_nth 2 x) in
       L [triple (obs_h (from_iter A) false k)
                 (L [of_nats A; L (map (fun y => of_bool (mem y A)) (seq 0 k))]) 0]
-  | _ =>
+  | 4 =>
       let A := nats_of (sx_nth 1 x) in
       L [triple (of_nats (arr (sort_h (from_iter A)))) (of_nats (sort A)) 0]
+  | 5 =>
+      let s := run (map op_of_sx (sx_list (sx_nth 1 x))) in
+      L (flat_map (fun qe =>
+                     let q := query_of_sx 3 (sx_nth 0 qe) in
+                     let ord := false in
+                     let spec := rows_sx ord (sem s [] q) in
+                     let k := known_class s q in
+                     let t := triple (orows_sx ord (eval_text s q)) spec k in
+                     let p := triple (orows_sx ord (eval_prog s q)) spec k in
+                     let c := triple (rows_sx ord (eval_chain s q)) spec (known_chain s q) in
+                     t :: p :: (if sx_bool (sx_nth 1 qe) then [c] else []))
+                  (sx_list (sx_nth 2 x)))
+  | 6 =>
+      let s := run (map op_of_sx (sx_list (sx_nth 1 x))) in
+      let a := addq_of_sx (sx_nth 2 x) in
+      let k := known_class s (add_sub a) in
+      let '(s2, o2) := spec_add s a in
+      let spec := L [out_code o2; state_sx s2 false] in
+      (* query_mut, then the same store changed by the direct calls on the rows of the sub-query *)
+      match eval_text s (add_sub a) with
+      | None => L [triple (L [A (-1)]) spec k; triple (L [A (-1)]) spec k]
+      | Some rows =>
+          let '(s1, o) := exec_add s a rows in
+          let m := L [out_code o; state_sx s1 true] in
+          L [triple m spec k; triple m spec k]
+      end
+  | _ =>
+      let s := run (map op_of_sx (sx_list (sx_nth 1 x))) in
+      let v := sx_nat (sx_nth 2 x) in
+      let sub := query_of_sx 3 (sx_nth 3 x) in
+      let nosub := sx_bool (sx_nth 4 x) in
+      if nosub then
+        (* DELETE without sub-query: unreachable!() in query_mut; nothing is specified for it *)
+        L [triple (L [A (-1)]) (L [A 0; state_sx s false]) 1]
+      else
+        let k := known_class s sub in
+        let s2 := spec_delete s v sub in
+        let spec := L [A 1; state_sx s2 false] in
+        match eval_text s sub with
+        | None => L [triple (L [A (-1)]) spec k; triple (L [A (-1)]) spec k]
+        | Some rows =>
+            let s1 := exec_delete s v sub rows in
+            let m := L [A 1; state_sx s1 true] in
+            L [triple m spec k; triple m spec k]
+        end
   end.
